@@ -6,5 +6,24 @@ import (
 )
 
 func runAsmDomain(domain string, out *bufio.Writer, rng *rand.Rand, thorough bool, n int, replay string) bool {
-	return false
+	cnt := func(q, t int) int {
+		if n > 0 {
+			return n
+		}
+		if thorough {
+			return t
+		}
+		return q
+	}
+	switch domain {
+	case "load":
+		genLoad(out, rng, cnt(3000, 200000))
+	case "loadbad":
+		genLoadBad(out, rng, cnt(20000, 1000000))
+	case "listing":
+		genListing(out, rng, cnt(3000, 200000))
+	default:
+		return false
+	}
+	return true
 }
